@@ -44,10 +44,12 @@ VARIABLES
   runs,   \* gid -> number of completed runs in the current top-level dispatch
   dsp,    \* builder -> [on, mode, th]  state of that dispatcher instance
   world,  \* resource -> value, as computed by the SPEC from the logged steps
-  w0      \* world at the beginning of the current top-level dispatch
+  w0,     \* world at the beginning of the current top-level dispatch
+  nset,   \* gid -> number of setup calls received in the current Dispatcher::setup
+  ndis    \* gid -> number of dispose calls received
 
 pvars == <<dead, lay, names, epoch, since, tls, regs, pos, last, ref, refi, var, owner>>
-xvars == <<st, runs, dsp, world, w0>>
+xvars == <<st, runs, dsp, world, w0, nset, ndis>>
 vars == <<l, pvars, ok, xvars>>
 
 ToSet(s) == {s[i] : i \in DOMAIN s}
@@ -55,12 +57,12 @@ Ev == Rec[l]
 Is(e) == l <= Len(Rec) /\ Ev.ev = e /\ l' = l + 1
 
 OkInit == [c18 |-> TRUE, c20 |-> TRUE, c19 |-> TRUE, built |-> TRUE, c10mt |-> TRUE, c12s |-> TRUE,
-           c04 |-> TRUE, c05 |-> TRUE, c07 |-> TRUE, c12 |-> TRUE, c14 |-> TRUE]
+           c04 |-> TRUE, c05 |-> TRUE, c07 |-> TRUE, c12 |-> TRUE, c14 |-> TRUE, c13 |-> TRUE]
 
 Init == /\ l = 1 /\ dead = FALSE /\ lay = <<>> /\ names = <<>> /\ epoch = <<>> /\ since = <<>>
         /\ tls = <<>> /\ regs = <<>> /\ pos = <<>> /\ last = 0 /\ ok = OkInit
         /\ ref = <<>> /\ refi = 0 /\ var = 0 /\ owner = <<>>
-        /\ st = <<>> /\ runs = <<>> /\ dsp = <<>> /\ world = <<>> /\ w0 = <<>>
+        /\ st = <<>> /\ runs = <<>> /\ dsp = <<>> /\ world = <<>> /\ w0 = <<>> /\ nset = <<>> /\ ndis = <<>>
 
 TrReset ==
   /\ Is("reset")
@@ -68,7 +70,7 @@ TrReset ==
   /\ tls' = <<>> /\ regs' = <<>> /\ pos' = <<>> /\ last' = 0 /\ ok' = OkInit
   /\ ref' = IF Ev.var = 0 THEN <<>> ELSE ref
   /\ refi' = 0 /\ var' = Ev.var /\ owner' = <<>>
-  /\ st' = <<>> /\ runs' = <<>> /\ dsp' = <<>> /\ world' = <<>> /\ w0' = <<>>
+  /\ st' = <<>> /\ runs' = <<>> /\ dsp' = <<>> /\ world' = <<>> /\ w0' = <<>> /\ nset' = <<>> /\ ndis' = <<>>
 
 (***************************************************************************)
 (* REGISTRATION                                                            *)
@@ -83,7 +85,7 @@ TrNew ==
           /\ epoch' = Append(epoch, 0) /\ since' = Append(since, FALSE) /\ tls' = Append(tls, <<>>)
           /\ owner' = Append(owner, 0) /\ dsp' = Append(dsp, DspOff)
           /\ UNCHANGED dead
-  /\ UNCHANGED <<regs, pos, last, ok, ref, refi, var, st, runs, world, w0>>
+  /\ UNCHANGED <<regs, pos, last, ok, ref, refi, var, st, runs, world, w0, nset, ndis>>
 
 \* append-shaped placement of a new id in a layout
 PlaceOK(ly, p) ==
@@ -237,7 +239,7 @@ WorldOf(e) == [r \in ToSet(e.rid) |-> e.val[CHOOSE i \in DOMAIN e.rid : e.rid[i]
 TrWorld0 ==
   /\ Is("world0")
   /\ world' = WorldOf(Ev)
-  /\ UNCHANGED <<pvars, ok, st, runs, dsp, w0>>
+  /\ UNCHANGED <<pvars, ok, st, runs, dsp, w0, nset, ndis>>
 
 TrBegin ==
   /\ Is("begin")
@@ -245,7 +247,7 @@ TrBegin ==
      ELSE LET e == Ev  b == e.d IN
           /\ dsp' = IF IsTop(b) THEN [x \in DOMAIN dsp |-> IF x = b THEN [DspOff EXCEPT !.on = TRUE, !.mode = e.mode, !.th = e.th] ELSE DspOff]
                      ELSE [dsp EXCEPT ![b] = [DspOff EXCEPT !.on = TRUE, !.mode = e.mode, !.th = e.th]]
-          /\ UNCHANGED world
+          /\ UNCHANGED <<world, nset, ndis>>
           /\ IF IsTop(b) THEN
                 /\ st' = [s \in Sys |-> "idle"] /\ runs' = [s \in Sys |-> 0] /\ w0' = world
                 /\ UNCHANGED ok
@@ -274,7 +276,7 @@ TrFetch ==
           IN
           /\ st' = [st0 EXCEPT ![s] = "run"]
           /\ dsp' = dsp0
-          /\ UNCHANGED <<runs, world, w0>>
+          /\ UNCHANGED <<runs, world, w0, nset, ndis>>
           /\ ok' = [ok EXCEPT
                 \* C04: a system starts only from idle, inside a dispatch of its dispatcher
                 !.c04 = @ /\ st0[s] = "idle" /\ dsp0[b].on /\ Expected(s, dsp0[b].mode) > 0,
@@ -311,7 +313,7 @@ TrFinish ==
               X == Done(XNow, s) IN
           /\ st' = X.st /\ runs' = X.runs /\ dsp' = X.dsp
           /\ world' = w1
-          /\ UNCHANGED w0
+          /\ UNCHANGED <<w0, nset, ndis>>
           /\ ok' = [ok EXCEPT
                 !.c04 = @ /\ st[s] = "run",
                 \* C05: what the system wrote is a function of what it declared to read,
@@ -330,7 +332,7 @@ TrMulti ==
               X == IF e.n = 0 \/ Members(ib) = {} THEN Done([st |-> st, runs |-> runs, dsp |-> dsp1], s)
                    ELSE [st |-> st, runs |-> runs, dsp |-> dsp1] IN
           /\ st' = X.st /\ runs' = X.runs /\ dsp' = X.dsp
-          /\ UNCHANGED <<world, w0>>
+          /\ UNCHANGED <<world, w0, nset, ndis>>
           \* C04: the planned number of inner dispatches is the registered one
           /\ ok' = [ok EXCEPT !.c04 = @ /\ regs[s].kind = "batch" /\ st[s] = "run" /\ e.n = regs[s].n]
   /\ UNCHANGED pvars
@@ -342,7 +344,7 @@ TrCtl ==
      ELSE LET e == Ev  s == e.s
               w1 == StepW(s, regs[s].rs, regs[s].ws, world) IN
           /\ world' = w1
-          /\ UNCHANGED <<st, runs, dsp, w0>>
+          /\ UNCHANGED <<st, runs, dsp, w0, nset, ndis>>
           /\ ok' = [ok EXCEPT !.c05 = @ /\ st[s] = "run" /\ e.nv = [i \in DOMAIN regs[s].ws |-> w1[regs[s].ws[i]]]]
   /\ UNCHANGED pvars
 
@@ -351,7 +353,7 @@ TrPanic ==
   /\ IF dead \/ Ev.s \notin Sys THEN UNCHANGED <<ok, xvars>>
      ELSE /\ st' = [st EXCEPT ![Ev.s] = "pan"]
           /\ ok' = [ok EXCEPT !.c04 = @ /\ st[Ev.s] = "run"]
-          /\ UNCHANGED <<runs, dsp, world, w0>>
+          /\ UNCHANGED <<runs, dsp, world, w0, nset, ndis>>
   /\ UNCHANGED pvars
 
 Pans == {s \in Sys : st[s] = "pan"}
@@ -361,7 +363,7 @@ TrEnd ==
   /\ IF dead \/ Ev.d \notin DOMAIN lay THEN UNCHANGED <<ok, xvars>>
      ELSE LET e == Ev  b == e.d  mode == dsp[b].mode IN
           /\ dsp' = [dsp EXCEPT ![b] = DspOff]
-          /\ UNCHANGED <<st, runs, world, w0>>
+          /\ UNCHANGED <<st, runs, world, w0, nset, ndis>>
           /\ IF ~IsTop(b) THEN
                 \* C04/C07: one inner dispatch ran every system of the batch exactly once
                 ok' = [ok EXCEPT !.c04 = @ /\ dsp[b].on /\ \A m \in Members(b) : st[m] = "done"]
@@ -386,14 +388,67 @@ TrEnd ==
                    !.c05 = @ /\ WorldOf(e) = world]
   /\ UNCHANGED pvars
 
+(***************************************************************************)
+(* SETUP / DISPOSE (C13)                                                   *)
+(***************************************************************************)
+Live13 == {s \in Sys : regs[s].kind \in {"plain", "tl"}}      \* systems with observable hooks, any depth
+AllAcc == UNION {regs[s].r \cup regs[s].w : s \in {x \in Sys : regs[x].kind # "rejected"}}
+
+\* the world as it is before Dispatcher::setup (any subset of the resources pre-exists)
+TrPreSetup ==
+  /\ Is("presetup")
+  /\ world' = WorldOf(Ev)
+  /\ UNCHANGED <<pvars, ok, st, runs, dsp, w0, nset, ndis>>
+
+TrSetupCall ==
+  /\ Is("setupcall")
+  /\ IF dead THEN UNCHANGED <<ok, world, nset>>
+     ELSE IF Ev.phase = "begin" THEN nset' = [s \in Sys |-> 0] /\ UNCHANGED <<ok, world>>
+     ELSE LET e == Ev  after == WorldOf(e) IN
+          /\ world' = after
+          /\ UNCHANGED nset
+          /\ ok' = [ok EXCEPT !.c13 = @
+                /\ e.out = "ok"
+                \* every system - ordinary, thread-local, inside batches at any depth - exactly once
+                /\ (\A s \in Live13 : nset[s] = 1)
+                \* nothing that existed was modified
+                /\ (\A r \in DOMAIN world : r \in DOMAIN after /\ after[r] = world[r])
+                \* everything accessed through a default-providing accessor now exists, with a default
+                /\ (\A r \in AllAcc : r \in DOMAIN after)
+                /\ (\A r \in DOMAIN after \ DOMAIN world : r \in AllAcc /\ after[r] \in {0, 1000 + r})]
+  /\ UNCHANGED <<pvars, st, runs, dsp, w0, ndis>>
+
+TrSetup ==
+  /\ Is("setup")
+  /\ IF dead \/ Ev.s \notin DOMAIN nset THEN UNCHANGED nset
+     ELSE nset' = [nset EXCEPT ![Ev.s] = @ + 1]
+  /\ UNCHANGED <<pvars, ok, st, runs, dsp, world, w0, ndis>>
+
+TrDisposeCall ==
+  /\ Is("disposecall")
+  /\ IF dead THEN UNCHANGED <<ok, ndis>>
+     ELSE IF Ev.phase = "begin" THEN ndis' = [s \in Sys |-> 0] /\ UNCHANGED ok
+     ELSE /\ UNCHANGED ndis
+          \* every system at every depth is handed to its dispose hook exactly once
+          /\ ok' = [ok EXCEPT !.c13 = @ /\ Ev.out = "ok" /\ (\A s \in Live13 : ndis[s] = 1)]
+  /\ UNCHANGED <<pvars, st, runs, dsp, world, w0, nset>>
+
+TrDispose ==
+  /\ Is("dispose")
+  /\ IF dead \/ Ev.s \notin DOMAIN ndis THEN UNCHANGED ndis
+     ELSE ndis' = [ndis EXCEPT ![Ev.s] = @ + 1]
+  /\ UNCHANGED <<pvars, ok, st, runs, dsp, world, w0, nset>>
+
 Known == {"reset", "new", "add", "batch", "barrier", "tl", "print", "built",
-          "world0", "begin", "fetch", "finish", "ctl", "multi", "panic", "end"}
+          "world0", "begin", "fetch", "finish", "ctl", "multi", "panic", "end",
+          "presetup", "setupcall", "setup", "disposecall", "dispose"}
 TrSkip ==
   /\ l <= Len(Rec) /\ Ev.ev \notin Known /\ l' = l + 1
   /\ UNCHANGED <<pvars, ok, xvars>>
 
 Next == \/ TrReset \/ TrNew \/ TrAdd \/ TrBarrier \/ TrTl \/ TrPrint \/ TrBuilt
-        \/ TrWorld0 \/ TrBegin \/ TrFetch \/ TrFinish \/ TrCtl \/ TrMulti \/ TrPanic \/ TrEnd \/ TrSkip
+        \/ TrWorld0 \/ TrBegin \/ TrFetch \/ TrFinish \/ TrCtl \/ TrMulti \/ TrPanic \/ TrEnd
+        \/ TrPreSetup \/ TrSetupCall \/ TrSetup \/ TrDisposeCall \/ TrDispose \/ TrSkip
 Spec == Init /\ [][Next]_vars
 
 \* ---- property invariants ----------------------------------------------------------
@@ -420,6 +475,7 @@ InvC05 == ok.c05
 InvC07 == ok.c07
 InvC12 == ok.c12
 InvC14 == ok.c14
+InvC13 == ok.c13
 
 Accepted ==
   IF TLCGet("stats").diameter = Len(Rec) + 1 THEN TRUE
